@@ -22,7 +22,20 @@ ALWAYS_STANDIN = True
 def tasks(tier):
     pols = ['least-recently-stored', 'none'] if tier == 'quick' else c03.POLICIES
     return [('contracts.c03', 'method_task', ('C04', m, pol)) for m in METHODS for pol in pols] + \
-        c03.bulk_tasks('C04', ('expire',))
+        c03.bulk_tasks('C04', ('expire',)) + \
+        [('contracts.c10', 'peekitem_task', ('C04', True)), ('contracts.c10', 'peekitem_task', ('C04', False))] + \
+        [('contracts.c10', 'pull_task', (m, s)) for m in ('pull', 'peek') for s in ('front', 'back')]
+
+
+def post_process(results, tier):
+    from pyvc.check import Result
+    out = []
+    for r in results:
+        if r['name'].startswith('C10.'):
+            r = Result('C04.' + r['name'][4:], r['kind'], r['verdict'],
+                       **{k: v for k, v in r.items() if k not in ('name', 'kind', 'verdict')})
+        out.append(r)
+    return out
 
 
 def meta(results, tier):
